@@ -5,7 +5,7 @@
     accepted when some order reproduces the observation, otherwise skipped). *)
 From Coq Require Import NArith Ascii.
 From stdpp Require Export gmap.
-From Rocfl Require Export Model.Inventory Model.InvSpec Model.Staging.
+From Rocfl Require Export Model.Inventory Model.InvSpec Model.Staging Model.RefusedCommit.
 
 Definition agree (x : bool) : N := if x then 1%N else 0%N.
 
@@ -53,5 +53,9 @@ Definition check_reset (paths : list (list ascii)) (recursive : bool) (pre post 
        then 0%N else 2%N.
 
 Definition check_commit (pre post : inventory) : N := agree (dedup_okb pre post).
+(** a commit that reports an error leaves the staged inventory as it was (refused before the de-duplication) or
+    as [refused_commit] says (refused by the store after it: 890d206) *)
+Definition check_refused_commit (pre post : inventory) : N :=
+  agree (bool_decide (post = pre) || bool_decide (post = refused_commit pre)).
 Definition check_new (post : inventory) : N := agree (bool_decide (post = new_inventory)).
 Definition check_dedup_canon (pre : inventory) : N := agree (dedup_okb pre (dedup_canon pre)).
